@@ -31,7 +31,7 @@ from concurrent.futures import ThreadPoolExecutor
 from fractions import Fraction
 from pathlib import Path
 
-from common import InfraError, LEAN, ROOT, lake_build, lean_audit, lean_batch, import_exo, declared_theorems, \
+from common import InfraError, LEAN, ROOT, REPLAY, lake_build, lean_audit, lean_batch, import_exo, declared_theorems, \
     strip_lean_comments, FORBIDDEN, ALLOWED_AXIOMS, lean_sources
 
 sys.path.insert(0, str(ROOT / "harness" / "translate"))
@@ -577,7 +577,17 @@ def judge_records(ctx, recs):
         if lab is None:
             per[r["instr"]] = st
         what = f"{r['instr']}: {st}" + (f" [{lab}]" if lab else "") + " — " + " ".join(str(r["detail"]).split())[:220]
-        ctx.violation(rec_key(r), what, rec_replay(r))
+        key = rec_key(r)
+        if ctx._known(key) is not None:
+            # keep a recorded instance of every known finding next to the other replays
+            path = REPLAY / f"{ctx.prop_id}_{re.sub(r'[^A-Za-z0-9_.-]+', '_', key)[:80]}.json"
+            if not path.exists():
+                REPLAY.mkdir(exist_ok=True)
+                path.write_text(json.dumps({"property": ctx.prop_id, "key": key, "what": what, "seed": ctx.seed,
+                                            "tier": ctx.tier, "known_finding": True,
+                                            "rerun": f"./check {ctx.prop_id} --replay {path}",
+                                            "replay": rec_replay(r)}, indent=1, default=str))
+        ctx.violation(key, what, rec_replay(r))
     return per
 
 
